@@ -2275,7 +2275,10 @@ typename SPxSimplifier<R>::Result SPxMainSM<R>::removeEmpty(SPxLPBase<R>& lp)
 
          R val;
 
-         if(GT(lp.maxObj(j), R(0.0), this->epsZero()))
+         // an objective coefficient within the dual feasibility tolerance (e.g. rounding residue of
+         // the objective updates of aggregations) is no proof of a ray; it is treated like zero
+         if(GT(lp.maxObj(j), R(0.0), this->epsZero())
+               && (lp.upper(j) < R(infinity) || GT(lp.maxObj(j), R(0.0), opttol())))
          {
             if(lp.upper(j) >= R(infinity))
             {
@@ -2285,7 +2288,8 @@ typename SPxSimplifier<R>::Result SPxMainSM<R>::removeEmpty(SPxLPBase<R>& lp)
 
             val = lp.upper(j);
          }
-         else if(LT(lp.maxObj(j), R(0.0), this->epsZero()))
+         else if(LT(lp.maxObj(j), R(0.0), this->epsZero())
+                 && (lp.lower(j) > R(-infinity) || LT(lp.maxObj(j), R(0.0), opttol())))
          {
             if(lp.lower(j) <= R(-infinity))
             {
@@ -2297,7 +2301,8 @@ typename SPxSimplifier<R>::Result SPxMainSM<R>::removeEmpty(SPxLPBase<R>& lp)
          }
          else
          {
-            SOPLEX_ASSERT_WARN("WMAISM09", isZero(lp.maxObj(j), this->epsZero()));
+            SOPLEX_ASSERT_WARN("WMAISM09", isZero(lp.maxObj(j), this->epsZero())
+                               || isZero(lp.maxObj(j), opttol()));
 
             // any value within the bounds is ok
             if(lp.lower(j) > R(-infinity))
@@ -3259,7 +3264,10 @@ typename SPxSimplifier<R>::Result SPxMainSM<R>::simplifyCols(SPxLPBase<R>& lp, b
 
          R val;
 
-         if(lp.maxObj(j) > R(0.0))
+         // an objective coefficient within the dual feasibility tolerance (e.g. rounding residue of
+         // the objective updates of aggregations) is no proof of a ray; it is treated like zero
+         if(lp.maxObj(j) > R(0.0)
+               && (lp.upper(j) < R(infinity) || GT(lp.maxObj(j), R(0.0), opttol())))
          {
             if(lp.upper(j) >= R(infinity))
             {
@@ -3269,7 +3277,8 @@ typename SPxSimplifier<R>::Result SPxMainSM<R>::simplifyCols(SPxLPBase<R>& lp, b
 
             val = lp.upper(j);
          }
-         else if(lp.maxObj(j) < R(0.0))
+         else if(lp.maxObj(j) < R(0.0)
+                 && (lp.lower(j) > R(-infinity) || LT(lp.maxObj(j), R(0.0), opttol())))
          {
             if(lp.lower(j) <= R(-infinity))
             {
@@ -3281,7 +3290,7 @@ typename SPxSimplifier<R>::Result SPxMainSM<R>::simplifyCols(SPxLPBase<R>& lp, b
          }
          else
          {
-            assert(isZero(lp.maxObj(j), this->epsZero()));
+            assert(isZero(lp.maxObj(j), this->epsZero()) || isZero(lp.maxObj(j), opttol()));
 
             // any value within the bounds is ok
             if(lp.lower(j) > R(-infinity))
@@ -3346,7 +3355,9 @@ typename SPxSimplifier<R>::Result SPxMainSM<R>::simplifyCols(SPxLPBase<R>& lp, b
          // 2. detect variables that are unconstrained from below or above
          // max  3 x
          // s.t. 5 x >= 8
-         if(GT(lp.maxObj(j), R(0.0), this->epsZero()) && upFree)
+         // (an objective coefficient within the dual feasibility tolerance is no proof of a ray)
+         if(GT(lp.maxObj(j), R(0.0), this->epsZero()) && upFree
+               && (lp.upper(j) < R(infinity) || GT(lp.maxObj(j), R(0.0), opttol())))
          {
 #if SOPLEX_FIX_VARIABLE
             SPxOut::debug(this, "IMAISM32 col {}: x{} unconstrained above ->", j, j);
@@ -3366,7 +3377,8 @@ typename SPxSimplifier<R>::Result SPxMainSM<R>::simplifyCols(SPxLPBase<R>& lp, b
          }
          // max -3 x
          // s.t. 5 x <= 8
-         else if(LT(lp.maxObj(j), R(0.0), this->epsZero()) && loFree)
+         else if(LT(lp.maxObj(j), R(0.0), this->epsZero()) && loFree
+                 && (lp.lower(j) > R(-infinity) || LT(lp.maxObj(j), R(0.0), opttol())))
          {
             SPxOut::debug(this, "IMAISM33 col {}: x{} unconstrained below ->", j, j);
 
@@ -3642,7 +3654,9 @@ typename SPxSimplifier<R>::Result SPxMainSM<R>::simplifyCols(SPxLPBase<R>& lp, b
                R sLo     = lp.lhs(i);
                R sUp     = lp.rhs(i);
 
-               if(GT(sMaxObj, R(0.0), this->epsZero()))
+               // (an objective coefficient within the dual feasibility tolerance proves no ray)
+               if(GT(sMaxObj, R(0.0), this->epsZero())
+                     && (sUp < R(infinity) || GT(sMaxObj, R(0.0), opttol())))
                {
                   if(sUp >= R(infinity))
                   {
@@ -3652,7 +3666,8 @@ typename SPxSimplifier<R>::Result SPxMainSM<R>::simplifyCols(SPxLPBase<R>& lp, b
 
                   slackVal = sUp;
                }
-               else if(LT(sMaxObj, R(0.0), this->epsZero()))
+               else if(LT(sMaxObj, R(0.0), this->epsZero())
+                       && (sLo > R(-infinity) || LT(sMaxObj, R(0.0), opttol())))
                {
                   if(sLo <= R(-infinity))
                   {
@@ -3664,7 +3679,7 @@ typename SPxSimplifier<R>::Result SPxMainSM<R>::simplifyCols(SPxLPBase<R>& lp, b
                }
                else
                {
-                  assert(isZero(sMaxObj, this->epsZero()));
+                  assert(isZero(sMaxObj, this->epsZero()) || isZero(sMaxObj, opttol()));
 
                   // any value within the bounds is ok
                   if(sLo > R(-infinity))
